@@ -313,6 +313,7 @@ impl Iterator for SimBody {
     type Item = Result<Bytes, Error>;
 
     fn next(&mut self) -> Option<Self::Item> {
+        crate::ctx::seam();
         self.polls += 1;
         if self.done {
             return None;
@@ -455,6 +456,7 @@ impl io::Write for SimWriter {
         if data.is_empty() {
             return Ok(0);
         }
+        crate::ctx::seam();
         if let Some(at) = self.plan.fail_at {
             if self.buf.len() >= at {
                 self.failed = true;
